@@ -10,8 +10,8 @@
 (* ====================================================================== *)
 
 Require Import Field Ring Arith Lia List Bool ZArith QArith Qcanon.
-From TK Require Import Mat_Sums Mat_Core Mat_Qc Mat_EigSelect
-     Pencil_Model Pencil_Spec Pencil_Proof_Sums Pencil_Proof Pencil_Proof_Rot.
+From TK Require Import Mat_Sums Mat_Core Mat_Qc Mat_EigSelect Spectral_KyFan
+     Pencil_Model Pencil_Spec Pencil_Proof_Sums Pencil_Proof Pencil_Proof_Rot Pencil_Proof_KyFan.
 Import ListNotations.
 
 Local Open Scope F_scope.
@@ -261,3 +261,19 @@ Proof. split; apply meq_by_compute; vm_compute; reflexivity. Qed.
 Lemma e_run :
   exists lhs rhs, run_construct VF42 NPE 2 2 [[qz 1; qz 1]; [qz 0; qz 1]] wW [] = Ok (lhs, rhs).
 Proof. eexists. eexists. vm_compute. reflexivity. Qed.
+
+(* ---------------- non-vacuity of the optimality theorem ---------------- *)
+Lemma e_full_contract :
+  full_contract 2 (p_lhs (seen (npe_repaired eX 2 eW))) (p_rhs (seen (npe_repaired eX 2 eW))) eV elam.
+Proof. repeat split; apply meq_by_compute; vm_compute; reflexivity. Qed.
+
+Lemma e_ascending : ascending 2 elam.
+Proof.
+  intros a b Hab Hb.
+  destruct a as [|[|a]]; destruct b as [|[|b]]; try lia; vm_compute; discriminate.
+Qed.
+
+(* a competing B-orthonormal 1-frame: the second eigenvector *)
+Definition eQ : mat Qc := mof [[qz 0]; [qz 1]].
+Lemma eQ_orthonormal : meq 1 1 (mmul 2 (mtrans eQ) (mmul 2 (npe_rhs 2 eX) eQ)) mI.
+Proof. apply meq_by_compute. vm_compute. reflexivity. Qed.
